@@ -3,7 +3,7 @@
    The deflate encoder is a parameter: `deflate_raw dict payload` is whatever flate.Writer emits after
    ResetDict/Write/Flush; the only facts assumed about it are that it returns bytes and fewer than 2^63 of them. *)
 From Gws Require Import Lib.Base Spec.MaskSpec Spec.Rfc6455 Model.Mask Model.Header Model.Writer Model.CloseCode
-  Proofs.FrameProofs Proofs.WriterProofs Proofs.CloseFrameProofs.
+  Proofs.FrameProofs Proofs.WriterProofs Proofs.CloseFrameProofs Gen.Funcs Proofs.GenFuncsProofs.
 Local Open Scope N_scope.
 
 Section C05.
@@ -121,6 +121,13 @@ Theorem C05_spec_roundtrip : forall lf f rest,
   decode_frame (encode_frame lf f ++ rest) = DFrame f (minimal_of lf (N.of_nat (length (f_payload f)))) rest.
 Proof. exact decode_encode. Qed.
 
+(* Tie to the source: the branch structure of frameHeader.SetLength (thresholds 125 / 65535, the comparison operators, the
+   number of extension bytes) and Opcode.isDataFrame, as regenerated from types.go on every run, are the model's *)
+Theorem C05_header_writer_from_source : forall n op,
+  gf_gws_frameHeader_SetLength (Z.of_N n) = Z.of_nat (length (snd (set_length n)))
+  /\ gf_gws_Opcode_isDataFrame (Z.of_N op) = is_data op.
+Proof. exact header_writer_from_source. Qed.
+
 (* non-vacuity: a client text frame of 200 bytes (16-bit length form, masked) built by the model decodes to itself *)
 Example C05_nonvacuous :
   let c := {| w_server := false; w_pmd := false; w_threshold := 512; w_wlimit := 1000; w_utf8 := false |} in
@@ -147,3 +154,4 @@ Print Assumptions C05_stream_one_message.
 Print Assumptions C05_flate_segments.
 Print Assumptions C05_stream_compressed.
 Print Assumptions C05_spec_roundtrip.
+Print Assumptions C05_header_writer_from_source.
